@@ -13,9 +13,9 @@ def obligations(tier):
     obs = [Ob("C10.context-agreement", "z3", "harness.C10:context_agreement", 60, bounds="every allow-listed element x scripting on/off (concrete lemma)", replay="harness.C10:replay_context",
               encodes=["html5lib/serializer.py:HTMLSerializer.serialize (raw-text decision)", "html5lib/filters/sanitizer.py:allowed_elements", "html5lib/html5parser.py:parseRCDataRawtext / startTagNoscript"])]
     for o1 in range(C10.NO):
-        cis = [0] if q else [0, 2, 4]
+        cis = [0] if q else [0, 2]
         for ci in cis:
-            obs.append(Ob("C10.roundtrip/open%02d/%s" % (o1, C10.CONTAINERS[ci]), "crosshair", "harness.C10:roundtrip", T, param={"o1": o1, "ci": ci, "o2max": 3 if q else 16, "scr1": False if q else None, "wdom": True, "skipmode": 1 if q else 9},
-                          bounds="container %r, first opener %r x %d second openers x 48 payloads x omit x {legacy, always} quoting x first-parse scripting %s x re-parse scripting x %d re-parse modes; dom walker" % (C10.CONTAINERS[ci], C10.OPEN[o1], 3 if q else 16, "off" if q else "off/on", 2 if q else 3),
+            obs.append(Ob("C10.roundtrip/open%02d/%s" % (o1, C10.CONTAINERS[ci]), "crosshair", "harness.C10:roundtrip", T, param={"o1": o1, "ci": ci, "o2max": 3 if q else 8, "scr1": False if q else None, "wdom": True, "skipmode": 1 if q else 9},
+                          bounds="container %r, first opener %r x %d second openers x 48 payloads x omit x {legacy, always} quoting x first-parse scripting %s x re-parse scripting x %d re-parse modes; dom walker" % (C10.CONTAINERS[ci], C10.OPEN[o1], 3 if q else 8, "off" if q else "off/on", 2 if q else 3),
                           encodes=["html5lib/html5parser.py:HTMLParser.parseFragment", "html5lib/filters/sanitizer.py:Filter.*", "html5lib/serializer.py:HTMLSerializer.serialize", "html5lib/treewalkers/*", "html5lib/_tokenizer.py"]))
     return obs
